@@ -31,6 +31,17 @@ def make_module(it, modname):
         return ModuleNS("json", {})
     if modname == "datetime":
         return ModuleNS("datetime", {"date": TypeObj("date"), "datetime": TypeObj("datetime"), "timedelta": TypeObj("timedelta")})
+    if modname == "re":
+        def refn(name):
+            def f(it_, args, kwargs):
+                # re.<name>(...): an uninterpreted pure function of all its arguments (keywords by name)
+                vs = [M.to_v(it_, a) for a in args]
+                for k in sorted(kwargs):
+                    vs.append(M.mk_tuple(it_.ctx, [M.to_v(it_, k), M.to_v(it_, kwargs[k])]))
+                fn = z3.Function(f"re_{name}_{len(args)}_{'_'.join(sorted(kwargs))}", *([V] * len(vs)), V)
+                return fn(*vs)
+            return ModelFn("re." + name + " [uninterpreted pure function of its arguments]", f)
+        return ModuleNS("re", {n: refn(n) for n in ("findall", "fullmatch", "match", "search", "split", "sub", "subn")})
     if modname in ("csv", "pickle", "random", "sys", "codecs", "statistics", "collections", "warnings"):
         return ModuleNS(modname, {"filterwarnings": ModelFn("warnings.filterwarnings", lambda i, a, k: None)})
     raise Unsupported(f"module {modname}")
